@@ -6,6 +6,7 @@ CONSTANTS
   PCaps = {2}
   ACaps = {3}
   MaxBacklog = 2
+  MaxFaults = 1
   MaxParses = 1
   WithSync = FALSE
   FixParentMissing = TRUE
